@@ -10,6 +10,7 @@ CONSTANTS
     MaxCheckouts = 1
     InitWs <- WsCopy
     InitCache <- CacheOkNone
+    Twins <- TwinsDef
     Prompts = {"absent", "accepts"}
 INVARIANT Inv_C05
 INVARIANT Inv_C05_Refusal
